@@ -248,6 +248,15 @@ def _wmod(kt, label, worldid):
   return arith("%", worldid, n)
 
 
+def batch_rows(kt):
+  """every per-world model array has at least one batch row (put_model allocates (nworld or 1, n))"""
+  out = []
+  for lbl, v in kt.args.items():
+    if isinstance(v, core.ArrRef) and v.cell.ndim == 2 and not lbl.endswith("_out") and is_sym(v.cell.shape[0]):
+      out.append(v.cell.shape[0] >= 1)
+  return out
+
+
 def _read_inputs(kt, getter):
   """(G1, G2, Pr, pairid, g1, g2) read from the kernel's input arrays with `getter(label, *idx, k=)`"""
   cid, worldid = kt.args["cid"], kt.args["worldid"]
@@ -350,12 +359,12 @@ def unit_params(ctx):
   loc = "checks.wrap_c04:k_contact_params"
   ctx.encode(cc.contact_params, cc.contact_margin_gap, cc.contact_material_params)
   ctx.bound(note="no loops; all array shapes, world id, pair id, geom ids and every model value symbolic (reals)")
-  ctx.assume("worldid >= 0, cid and all derived indices in range (C17 decides bounds)", "the two geoms of a pair are distinct", "floats are reals (rounding outside the claim)")
+  ctx.assume("worldid >= 0, cid and all derived indices in range (C17 decides bounds)", "the two geoms of a pair are distinct", "per-world model arrays have >= 1 batch row", "floats are reals (rounding outside the claim)")
   kt = lib.kernel_thread(k, shapes={o: [1] for o in OUT1}, cap=4)
   worldid = kt.args["worldid"]
   G1, G2, Pr, pairid, g1, g2 = _read_inputs(kt, kt.pre)
   ref = ref_contact_param(G1, G2, Pr, pairid)
-  bg = kt.bg + [worldid >= 0, g1 != g2, pairid >= -2]
+  bg = kt.bg + [worldid >= 0, g1 != g2, pairid >= -2] + batch_rows(kt)
   sess = ctx.session(bg)
   ctx.reach(sess, "twin:explicit-pair", pairid >= 0)
   ctx.reach(sess, "twin:geom-mix-equal-priority", And(pairid < 0, cmp("==", G1["priority"], G2["priority"]), cmp(">", G1["solmix"], 1), cmp(">", G2["solmix"], 1)))
@@ -527,11 +536,13 @@ def unit_addpair(filt):
     loc = f"mujoco_warp._src.collision_driver:_nxn_broadphase({filt}, 1, 1, 1, 1)"
     ctx.encode(k, cdv._add_geom_pair)
     ctx.bound(shape_cap=5, broadphase_filter=filt, note="one generic thread (world, pair element); filter bits: 1 plane, 2 sphere (floats uninterpreted)")
-    ctx.assume("thread's own accesses in bounds (C17)", "ncollision >= 0; collision_* arrays have naconmax rows", "float arithmetic uninterpreted (which pair is stored where does not depend on float values)")
+    ctx.assume("thread's reads of model/data arrays in bounds (C17); writes to the collision_* arrays are PROVED in bounds", "ncollision >= 0; collision_* arrays have naconmax rows", "float arithmetic uninterpreted (which pair is stored where does not depend on float values)")
     naconmax = z3.Int("naconmax_in")
     shapes = {F: [naconmax] for F in PAIR_OUT}
     shapes["ncollision_out"] = [1]
-    kt = lib.kernel_thread(k, shapes=shapes, scalars={"naconmax_in": naconmax}, cap=5, interp_kw={"float_uf": True})
+    kt = lib.kernel_thread(k, shapes=shapes, scalars={"naconmax_in": naconmax}, cap=5, interp_kw={"float_uf": True}, assume_bounds=False)
+    own = [o for o in kt.it.obl if o.kind == "bounds" and o.info and o.info[1] in PAIR_OUT]
+    kt.bg += [core.zbool(Implies(o.guard, o.strict)) for o in kt.it.obl if o.kind == "bounds" and o not in own]
     w, e = kt.tid
     n0 = kt.pre("ncollision_out", 0)
     n = kt.atomic_total("ncollision_out", 0)
@@ -545,6 +556,8 @@ def unit_addpair(filt):
     ctx.reach(sess, "twin:swapped", And(added, fits, cmp(">", t1, t2)))
     names = {"world": w, "element": e, "ncollision0": n0, "naconmax": naconmax, "geom1": g1, "geom2": g2, "type1": t1, "type2": t2}
     rp = lib.make_replay(ctx, kt, loc, "addpair", "goal", goal="checks.c04:goal_addpair", env={"always": filt == 0})
+    for bi, o in enumerate(own):
+      ctx.prove(sess, f"capacity-guard/in-bounds@{o.where}#{bi}", o.strict, o.guard, names=names, replay=lib.make_replay(ctx, kt, loc, f"bounds{bi}", "bounds"), desc=f"broadphase thread writes a collision_* array outside its naconmax rows at {o.where}")
     ctx.prove(sess, "counter-0-or-1", Or(cmp("==", n, 0), added), names=names, replay=rp, desc="a broadphase thread advances ncollision by more than one")
     if filt == 0:
       ctx.prove(sess, "always-added", added, names=names, replay=rp, desc="broadphase without filter drops a listed pair")
@@ -560,11 +573,171 @@ def unit_addpair(filt):
   return (f"addpair/filter{filt}", run)
 
 
+# ------------------------------------------------------------------------------------------------ unit: narrowphase wiring (real kernel)
+
+PIPE = {
+  "plane_sphere": ("PLANE", "SPHERE"),
+  "sphere_sphere": ("SPHERE", "SPHERE"),
+  "sphere_capsule": ("SPHERE", "CAPSULE"),
+}
+
+
+def _pipe_locator(t1, t2):
+  return f"mujoco_warp._src.collision_primitive:_primitive_narrowphase([(GeomType.{t1}, GeomType.{t2})], [_PRIMITIVE_COLLISIONS[(GeomType.{t1}, GeomType.{t2})]])"
+
+
+def _np_make_frame_ok(F, n):
+  from checks import geom_c20
+
+  msgs = geom_c20._frame_report(F, "contact frame")
+  ln = np.linalg.norm(n)
+  if ln > 1e-6 and np.abs(np.asarray(F)[0] - n / ln).max() > 2e-3:
+    msgs.append(f"frame normal {np.asarray(F)[0].tolist()} is not {(n / ln).tolist()}")
+  return msgs
+
+
+def goal_pipeline(spec, pre, post):
+  """replay goal: the real narrowphase kernel thread leaves the contact MuJoCo's rules give for this candidate"""
+  from checks import geom_c20
+
+  which = spec["env"]["which"]
+  tid = int(spec["tid"][0])
+  a = spec["args"]
+  naconmax = int(a["naconmax_in"]["scalar"])
+  n0, n1 = int(pre["nacon_out"][0]), int(post["nacon_out"][0])
+  if tid >= int(pre["ncollision_in"][0]):
+    return (n1 == n0), f"thread beyond ncollision changed nacon {n0}->{n1}"
+  g1, g2 = (int(x) for x in pre["collision_pair_in"][tid])
+  w = int(pre["collision_worldid_in"][tid])
+  pid = [int(x) for x in pre["collision_pairid_in"][tid]]
+
+  class _KT:
+    args = {"cid": tid, "worldid": w}
+
+    class _C:
+      def __init__(self, shape):
+        self.shape = shape
+
+    def cell(self, label):
+      return self._C(pre[label].shape)
+
+  def getter(label, *idx, k=0):
+    arr = pre[label]
+    idx = tuple(int(i) for i in idx)
+    if any(i < 0 or i >= s_ for i, s_ in zip(idx, arr.shape)):
+      return 0.0
+    v = np.asarray(arr[idx]).reshape(-1)[k]
+    return int(v) if arr.dtype.kind == "i" else float(v)
+
+  G1, G2, Pr, pairid, _, _ = _read_inputs(_KT(), getter)
+  P = ref_contact_param(G1, G2, Pr, pairid)
+  x1, x2 = pre["geom_xpos_in"][w, g1].astype(float), pre["geom_xpos_in"][w, g2].astype(float)
+  R1, R2 = pre["geom_xmat_in"][w, g1].astype(float), pre["geom_xmat_in"][w, g2].astype(float)
+  s1 = pre["geom_size"][w % pre["geom_size"].shape[0], g1].astype(float)
+  s2 = pre["geom_size"][w % pre["geom_size"].shape[0], g2].astype(float)
+  if which == "plane_sphere":
+    n = R1[:, 2]
+    dist = float(np.dot(x2 - x1, n) - s2[0])
+    pos = x2 - n * (s2[0] + 0.5 * dist)
+  else:
+    c2 = x2 if which == "sphere_sphere" else geom_c20._closest_exact(x2 - R2[:, 2] * s2[1], x2 + R2[:, 2] * s2[1], x1)[0]
+    d = c2 - x1
+    L = float(np.linalg.norm(d))
+    n = d / L if L > 0 else np.array([1.0, 0, 0])
+    dist = L - s1[0] - s2[0]
+    pos = x1 + n * (s1[0] + 0.5 * dist)
+  rec = bool(ref_recorded(dist, P["margin"], P["gap"], pid[0], pid[1]))
+  msgs = []
+  if n1 != n0 + (1 if rec else 0):
+    msgs.append(f"nacon {n0}->{n1} but MuJoCo's rule records: {rec} (dist {dist}, margin {P['margin']}, gap {P['gap']}, pairid {pid})")
+  if rec and n1 == n0 + 1 and 0 <= n0 < naconmax:
+    exp = {
+      "contact_dist_out": dist, "contact_pos_out": pos, "contact_includemargin_out": P["margin"], "contact_friction_out": P["friction"],
+      "contact_solref_out": P["solref"], "contact_solreffriction_out": P["solreffriction"], "contact_solimp_out": P["solimp"],
+      "contact_dim_out": ref_dim(dist, P["margin"], P["condim"], P["adhesion"]), "contact_geom_out": [g1, g2], "contact_worldid_out": w,
+      "contact_adhesion_out": P["adhesion"], "contact_geomcollisionid_out": 0,
+    }
+    scale = 1 + max(abs(dist), np.abs(x1).max(), np.abs(x2).max())
+    for F, v in exp.items():
+      got = np.asarray(post[F][n0], dtype=float).reshape(-1)
+      want = np.asarray(v, dtype=float).reshape(-1)
+      if not np.allclose(got, want, rtol=2e-3, atol=2e-3 * scale):
+        msgs.append(f"{F}[{n0}] = {got.tolist()} expected {want.tolist()}")
+    msgs += _np_make_frame_ok(post["contact_frame_out"][n0].astype(float), n)
+  return (not msgs), f"narrowphase {which} thread {tid} geoms ({g1},{g2}) world {w}: " + ("; ".join(msgs[:4]) or "ok")
+
+
+def unit_pipeline(which):
+  def run(ctx):
+    from mujoco_warp._src import collision_core as cc
+    from mujoco_warp._src import collision_primitive as cp
+    from mujoco_warp._src import collision_primitive_core as cpc
+    from mujoco_warp._src import math as mjmath
+    from mujoco_warp._src.types import GeomType
+
+    t1, t2 = PIPE[which]
+    types = [(getattr(GeomType, t1), getattr(GeomType, t2))]
+    k = cp._primitive_narrowphase(types, [cp._PRIMITIVE_COLLISIONS[types[0]]])
+    loc = _pipe_locator(t1, t2)
+    ctx.encode(k, cp._PRIMITIVE_COLLISIONS[types[0]], cc.geom_collision_pair, cc.contact_params, cc.write_contact)
+    ctx.bound(unroll=5, shape_cap=4, note=f"one generic thread of the real narrowphase kernel specialised to {t1}-{t2}; float products / quotients / sqrt uninterpreted (wiring claim: the stored geometry is the core function applied to the right geoms' pose and size; the core functions themselves are the geometry units)")
+    ctx.assume("thread's own accesses in bounds (C17)", "0 <= nacon, worldid >= 0; per-world model arrays have >= 1 batch row", "pairid[0] >= -2, pairid[1] >= -1")
+    naconmax = z3.Int("naconmax_in")
+    kt = lib.kernel_thread(k, scalars={"naconmax_in": naconmax}, unroll=5, cap=4, interp_kw={"float_uf": True})
+    tid = kt.tid
+    g1, g2 = kt.pre("collision_pair_in", tid, k=0), kt.pre("collision_pair_in", tid, k=1)
+    w = kt.pre("collision_worldid_in", tid)
+    pid0, pid1 = kt.pre("collision_pairid_in", tid, k=0), kt.pre("collision_pairid_in", tid, k=1)
+    n0 = kt.pre("nacon_out", 0)
+    kt.args["cid"], kt.args["worldid"] = tid, w
+    G1, G2, Pr, pairid, _, _ = _read_inputs(kt, kt.pre)
+    P = ref_contact_param(G1, G2, Pr, pairid)
+    # expected geometry: the real core function (interpreted with the same float abstraction) on the pair's pose / size
+    xp = lambda g: kt.prev("geom_xpos_in", w, g)
+    xm = lambda g: kt.prev("geom_xmat_in", w, g)
+    sz = lambda g: kt.prev("geom_size", arith("%", w, kt.cell("geom_size").shape[0]), g)
+    col2 = lambda M: core.Vec([M.c[2], M.c[5], M.c[8]], (3,), "f")
+    if which == "plane_sphere":
+      nrm = col2(xm(g1))
+      it2, (dist, pos) = kh.run(cpc.plane_sphere, [nrm, xp(g1), xp(g2), sz(g2).c[0]], float_uf=True)
+    elif which == "sphere_sphere":
+      it2, (dist, pos, nrm) = kh.run(cpc.sphere_sphere, [xp(g1), sz(g1).c[0], xp(g2), sz(g2).c[0]], float_uf=True)
+    else:
+      it2, (dist, pos, nrm) = kh.run(cpc.sphere_capsule, [xp(g1), sz(g1).c[0], xp(g2), col2(xm(g2)), sz(g2).c[0], sz(g2).c[1]], float_uf=True)
+    it3, frame = kh.run(mjmath.make_frame, [nrm], float_uf=True)
+    active = And(cmp("<", tid, kt.pre("ncollision_in", 0)), cmp("==", kt.pre("geom_type", g1), int(types[0][0])), cmp("==", kt.pre("geom_type", g2), int(types[0][1])))
+    bg = kt.bg + [core.zbool(x) for x in it2.assumes + it3.assumes] + [naconmax >= 0, n0 >= 0, w >= 0, pid0 >= -2, pid1 >= -1] + batch_rows(kt)
+    sess = ctx.session(bg)
+    rec = ref_recorded(dist, P["margin"], P["gap"], pid0, pid1)
+    fits = cmp("<", n0, naconmax)
+    ctx.reach(sess, "twin:recorded", And(active, rec, fits))
+    names = {"tid": tid, "geom1": g1, "geom2": g2, "world": w, "pairid0": pid0, "pairid1": pid1, "nacon0": n0, "naconmax": naconmax}
+    rp = lib.make_replay(ctx, kt, loc, f"pipeline-{which}", "goal", goal="checks.c04:goal_pipeline", env={"which": which, "randomize_floats": 8})
+    cnt = kt.atomic_total("nacon_out", 0)
+    ctx.prove(sess, "counter", cmp("==", cnt, ite(And(active, rec), 1, 0)), names=names, replay=rp, desc=f"narrowphase {which}: a candidate pair is (not) recorded against MuJoCo's rule dist < margin + gap / filter / sensor")
+    want = {
+      "contact_dist_out": [dist], "contact_pos_out": list(pos.c), "contact_frame_out": list(frame.c), "contact_includemargin_out": [P["margin"]],
+      "contact_friction_out": P["friction"], "contact_solreffriction_out": P["solreffriction"], "contact_dim_out": [ref_dim(dist, P["margin"], P["condim"], P["adhesion"])],
+      "contact_geom_out": [g1, g2], "contact_worldid_out": [w], "contact_adhesion_out": [P["adhesion"]], "contact_geomcollisionid_out": [0],
+    }
+    for F, vals in want.items():
+      goal = And(*[cmp("==", kt.post(F, n0, k=c), v) for c, v in enumerate(vals)])
+      ctx.prove(sess, f"slot/{F}", goal, And(active, rec, fits), names=names, replay=rp, desc=f"narrowphase {which}: {F} of the recorded contact is not what the pair's pose / size / parameters give (wrong geom, world, argument or parameter wired through)")
+
+  return (f"pipeline/{which}", run)
+
+
 # ------------------------------------------------------------------------------------------------ main
 
 
 def main(tier, seed, only=None):
+  from checks import geom_c20
+
   units = [("params", unit_params), ("write", unit_write), unit_addpair(0), unit_addpair(3)]
+  units += [unit_pipeline(w) for w in PIPE]
+  if tier == "thorough":
+    units += [unit_addpair(1), unit_addpair(2)]
+  units += geom_c20.units()
   if only:
     units = [u for u in units if any(o in u[0] for o in only)]
   return report.run_check(PID, units, tier, seed)
